@@ -643,6 +643,7 @@ pub fn alpha_table(ctx: &mut crate::Ctx, case: &Value, out: &mut Map<String, Val
         };
         let mut run_left = 0u64;
         let mut run_alpha = 0i64;
+        let mut run_colour = 0u64; // 0 = random colours, 1 = all components zero, 2 = all components maximum
         for i in 0..n {
             let j = i % 65536;
             let (mut c, mut a) = ((j / 256) as i64, (j % 256) as i64);
@@ -655,12 +656,23 @@ pub fn alpha_table(ctx: &mut crate::Ctx, case: &Value, out: &mut Map<String, Val
                         2 => 0,
                         _ => ((r >> 16) % 256) as i64,
                     };
+                    run_colour = (r >> 24) % 4;
                 }
                 run_left -= 1;
                 a = run_alpha;
-                c = (next() % 256) as i64;
+                c = match run_colour {
+                    1 => 0,
+                    2 => 255,
+                    _ => (next() % 256) as i64,
+                };
             }
             if nc == 2 {
+                data.push(c);
+                data.push(a);
+            } else if arrangement == 1 && (run_colour == 1 || run_colour == 2) {
+                // transparent black / fully saturated pixels: every component of the run equal
+                data.push(c);
+                data.push(c);
                 data.push(c);
                 data.push(a);
             } else {
